@@ -6,7 +6,7 @@ exit 1 if the recorded violation class reproduces (identically both times), 0 if
 import json
 import os
 import sys
-sys.path.insert(0, "/verif/scripts")
+sys.path.insert(0, os.path.dirname(os.path.abspath(__file__)))
 import check  # noqa: E402
 
 
